@@ -28,7 +28,7 @@ struct TimeGhostImpl : TimeGhost {
   std::map<uint64_t, MsgTime> mt;            // by message number
   bool c15, c16;
   bool daemon_ready = false; int64_t daemon_since_idle = 0; bool exiting = false; bool clean_exit_pending = false; bool last_exit_clean = false;
-  int zero_selects = 0; int max_zero_selects = 0; int alrm_countdown = 0;
+  bool progress_since_select = true; int idle_wakeups = 0; int zero_selects = 0; int max_zero_selects = 0; int alrm_countdown = 0;
   bool alrm_obligation = false; int64_t alrm_t = 0; std::set<std::pair<uint64_t, int>> alrm_waiting;
   int pass_owner_fd[2] = {-1, -1}; uint64_t pass_owner_n[2] = {0, 0};
   int jobs_in_use() { int j = 0; for (auto &p : mt) for (int c = 0; c < 2; c++) if (p.second.c[c].exists && (p.second.c[c].in_pass || p.second.c[c].outstanding > 0)) j++; return j; }
@@ -169,12 +169,20 @@ struct TimeGhostImpl : TimeGhost {
         // permission only (no obligation): a message that re-entered the queue just before pqrun() ran may be passed early
         if (alrm_countdown > 0) { alrm_countdown--; for (auto &pr : mt) for (int c = 0; c < 2; c++) { ChanState &cs = pr.second.c[c]; if (cs.waiting()) cs.early_ok = true; } }
         if (c16) {
+          // spinning of the other kind: select() keeps returning at once and every wake-up finds nothing to do. A process that
+          // holds the trigger open for a moment (or is stalled there: capped at 3 s) makes the daemon poll legitimately; that is
+          // a few hundred wake-ups at most, so the threshold sits well above it.
+          if (!progress_since_select && e.ret >= 0) { if (++idle_wakeups > 2500) w->violate("C16.busy-loop", "qmail-send woke up " + std::to_string(idle_wakeups) + " times in a row with nothing to do (select keeps returning at once; requested timeout " + std::to_string(e.a) + " s)"); }
+          else idle_wakeups = 0;
+          progress_since_select = false;
           if (e.a == 0 && e.ret == 0) { if (++zero_selects > max_zero_selects) max_zero_selects = zero_selects; if (zero_selects > 400) w->violate("C16.busy-loop", "qmail-send polled select() with a zero timeout " + std::to_string(zero_selects) + " times in a row without doing anything else"); }
           else zero_selects = 0;
         }
         break;
       default: break;
     }
+    // progress = the daemon changed something or talked to somebody (not: closing/reopening the trigger and scanning directories)
+    if ((e.call == C_WRITE && e.ret > 0) || (e.call == C_READ && e.ret > 0) || e.call == C_UNLINK || e.call == C_LINK || e.call == C_RENAME || e.call == C_FORK || e.call == C_UTIMES || e.call == C_FSYNC || e.call == C_EXIT || (e.call == C_OPEN && (e.b & (1 << 20)))) progress_since_select = true;
     if (e.call != C_SELECT && e.call != C_WRITE /* log */) zero_selects = 0;
     if (e.call == C_WRITE && e.ino) zero_selects = 0;
   }
